@@ -282,14 +282,17 @@ pub fn draw_plan(prop: &str, index: u64, r: &mut Rng, thorough: bool) -> RunPlan
         // under Miri the construction of a large arena alone takes minutes
         cfg.cap = cfg.cap.min(1000);
     }
-    if (index % 100_000) / 4 == 1 && !interpreted && cfg.world != WorldKind::Seg && !cfg.has(O_TORN) && !cfg.has(O_CAP) && bulk.is_none() && ord_bulk.is_none() {
+    // (prime strides: the runs spread over all workers and over all residues that select worlds)
+    let huge_stride = if cfg.has(O_STRUCT | O_ARENA | O_TWIN) { 25_013 } else { 2_503 };
+    if index % huge_stride == 4 && !interpreted && cfg.world != WorldKind::Seg && !cfg.has(O_TORN) && !cfg.has(O_CAP) && bulk.is_none() && ord_bulk.is_none() {
         cfg.key_ty = 1;
         cfg.cap = if thorough && r.chance(1, 2) { (1 << 24) + 1 } else { (1 << 23) + 9 };
         cfg.universe = cfg.universe.min(64);
         if cfg.world == WorldKind::Key {
             cfg.t0 = cfg.t0.min(250);
         }
-        len = 10 + r.below(6) as usize;
+        // short where every operation is followed by a snapshot of the (huge) arena
+        len = if cfg.has(O_STRUCT | O_ARENA) { 10 + r.below(6) as usize } else { 40 + r.below(120) as usize };
     }
     // thorough tier only: a giant build of the plain instantiation (2^25 + 7 keys ascending or
     // descending: a root-to-leaf path of 48 entries, beyond any "46 = 1.44 * 32" or "32" bound)
